@@ -32,6 +32,9 @@ CLAIMS = {
  "C18": dict(cat="model_checking", ref="6/C18", tech="SluScreen decision tables (TLA+) enumerated exhaustively by TLC; every single-argument corruption executed against every routine in four types; trace validation of info, byte-identity of caller objects, ledger",
    text="The specification is the ordered decision table of each routine's header; TLC checks the tables' consistency and emits all 118 single-argument corruptions; each is applied to an otherwise valid call (factors, scalings, permutations in place) of ?gssv, ?gssvx, ?gsisx, ?gstrs, ?gsrfs, ?gscon, ?gsequ, sp_?trsv; TLC validates info = -(first offending position), that every caller-owned byte is unchanged and no allocation is retained.",
    note="sp_?gemv/sp_?gemm have no info argument and are not covered; B->ncol < 0 is not a documented check of ?gstrs/?gsrfs and is not generated for them. Two defects found here were repaired (known_findings.jsonl)."),
+ "C19": dict(cat="model_checking", ref="6/C19", tech="TLC-enumerated API lifecycles (SluLife) executed under an allocation ledger with red zones; every call's ledger validated by TLC (no leak per outcome class, no double/unknown free, guards intact, nothing left at the end); same behaviours replayed under ASan+UBSan (and valgrind in the thorough tier) as observers",
+   text="SluLife models which library-owned objects the caller holds and which calls are legal next (fresh / reuse / solve / query / short workspace / failed growth / singular / rejected / destroy); TLC enumerates all 21,752 lifecycles of length <= 4, a seeded sample (all in thorough) is executed in four types. The USER_MALLOC seam gives a ledger with call sites, red zones and poisoned fresh blocks; TLC checks after every call that nothing of the library's own is still allocated (per outcome class), that each free hit a live block and guard bytes are intact, and that nothing is left once the caller destroyed what it was handed. The same scripts plus the factor / singular / expert / storage families (fill estimate 1: arrays end exactly at capacity) run under clang ASan+UBSan; a report inside libsuperlu is a violation keyed by kind and function.",
+   note="Memory errors that neither damage a red zone nor trip a sanitizer are not seen. Known findings: leaks on out-of-space returns of the factor routines, crash on structurally singular input (shared with C04)."),
 }
 
 def main():
